@@ -1,19 +1,10 @@
-"""Registry of claimed checks -> MANIFEST.json (run bin/mkmanifest after editing)."""
-MC = "model_checking"
-CLAIMED = {
- "C05": dict(cat=MC, engine="Handles", design="5/C05",
-   technique="TLA+ spec Handles (TLC exhaustive) + step validation of recorded FileHandleMap/handler traces (HandlesTrace)",
-   text="Allocate/Release/ReleaseAll are transcribed into specs/Handles; TLC checks IssuedIsLive, OnePerPath, Bounded on every reachable "
-        "state for 4-5 paths x limits 1..3, then every step of seeded real executions (FileHandleMap API and LOOKUP/CREATE/MKDIR/SYMLINK/"
-        "READDIRPLUS/MNT under small limits, each issued handle used at once) is checked by TLC against the same operators.",
-   note="trusts the in-package projection of the table and the recording backend; eviction limits above 25 and tables above a few dozen "
-        "entries are not exercised; READDIRPLUS handles evicted by later entries of the same reply are a listed known finding"),
- "C06": dict(cat=MC, engine="Handles", design="5/C06",
-   technique="TLA+ spec Handles with ghost first-issue map (TLC exhaustive) + step validation of handler traces with a client that keeps all handle values",
-   text="Ghost map id -> path first issued survives eviction/release/Unexport; TLC shows rebinding arises only through free-list reuse "
-        "(action property RebindOnlyViaFreeList) and that the no-recycling design satisfies NoRebind; recorded executions are accepted only "
-        "if every request on an old handle value is answered STALE or served against the path of its latest issue, rebinding itself being "
-        "the listed known finding F07.",
-   note="re-export is exercised as Unexport + MNT on the same AbsfsNFS object; a fresh New() over the same backend (ids restart at 1) is outside the claim"),
-}
+"""Registry of claimed checks -> MANIFEST.json (run bin/mkmanifest after editing a fragment in registry.d/)."""
+import glob, os, importlib.util
+CLAIMED, NA = {}, {}
+for f in sorted(glob.glob(os.path.join(os.path.dirname(os.path.abspath(__file__)), "registry.d", "*.py"))):
+    spec = importlib.util.spec_from_file_location("reg_" + os.path.basename(f)[:-3], f)
+    m = importlib.util.module_from_spec(spec)
+    spec.loader.exec_module(m)
+    CLAIMED.update(getattr(m, "CLAIMED", {}))
+    NA.update(getattr(m, "NA", {}))
 NOT_YET = "check not built yet (work in progress; see DESIGN.md section 5 for the plan)"
